@@ -41,6 +41,16 @@ func main() {
 	verbose := flag.Bool("v", false, "print every obligation")
 	flag.Parse()
 
+	if os.Getenv("SPECVET_DUMP_GRAMMAR") != "" {
+		g, err := parseYacc(filepath.Join(*repo, "internal/lang/parser/grammar.y"))
+		if err != nil {
+			fatal(err)
+		}
+		for _, a := range g.Alts {
+			fmt.Printf("\t%q: %q,\n", a.sig(), strings.Join(altBindings(a.Action), "; "))
+		}
+		return
+	}
 	if *list {
 		for _, r := range rules {
 			fmt.Printf("%-7s %-16s floor=%-3d %s\n", r.ID, strings.Join(r.Props, ","), r.Floor, r.Doc)
